@@ -120,6 +120,7 @@ func (c *Ctx) buildInto(dst reflect.Value, s *SExp) {
 			return
 		}
 		full := reflect.MakeSlice(t, n+spare, n+spare)
+		fillSpare(full, n)
 		c.slices[k] = full
 		for i := 0; i < n; i++ {
 			c.buildInto(full.Index(i), s.List[3+i])
@@ -362,4 +363,69 @@ func b01(b bool) string {
 // (ShapeEqual), whether memory of the two overlaps, whether the source reads as before the call.
 func CopyAnswer(dst string, eq, shape, alias, srcSame bool) string {
 	return strings.ReplaceAll(dst, " ", ",") + ";eq=" + b01(eq) + ";shape=" + b01(shape) + ";alias=" + b01(alias) + ";src=" + b01(srcSame)
+}
+
+// fillSpare writes a sentinel into the elements of an integer slice that lie beyond its length: code that
+// writes there (an append that "pads" its argument) changes memory its argument shares with others.
+func fillSpare(full reflect.Value, n int) {
+	for i := n; i < full.Len(); i++ {
+		switch e := full.Index(i); e.Kind() {
+		case reflect.Uint8, reflect.Uint16, reflect.Uint32, reflect.Uint64, reflect.Uint:
+			e.SetUint(0xA5)
+		case reflect.Int8, reflect.Int16, reflect.Int32, reflect.Int64, reflect.Int:
+			e.SetInt(0x5A)
+		}
+	}
+}
+
+// SpareDigest folds the elements beyond the length of every integer slice reachable from v (what Observe does
+// not show) into one number.
+func SpareDigest(v reflect.Value) uint64 {
+	h := uint64(1)
+	seen := map[uintptr]bool{}
+	var walk func(v reflect.Value)
+	walk = func(v reflect.Value) {
+		switch v.Kind() {
+		case reflect.Ptr:
+			if !v.IsNil() && !seen[v.Pointer()] {
+				seen[v.Pointer()] = true
+				walk(v.Elem())
+			}
+		case reflect.Interface:
+			if !v.IsNil() {
+				walk(v.Elem())
+			}
+		case reflect.Slice:
+			if v.IsNil() {
+				return
+			}
+			for i := 0; i < v.Len(); i++ {
+				walk(v.Index(i))
+			}
+			full := v.Slice3(0, v.Cap(), v.Cap())
+			for i := v.Len(); i < full.Len(); i++ {
+				switch e := full.Index(i); e.Kind() {
+				case reflect.Uint8, reflect.Uint16, reflect.Uint32, reflect.Uint64, reflect.Uint:
+					h = 31*h + e.Uint() + 1
+				case reflect.Int8, reflect.Int16, reflect.Int32, reflect.Int64, reflect.Int:
+					h = 31*h + uint64(e.Int()) + 1
+				}
+			}
+		case reflect.Array:
+			for i := 0; i < v.Len(); i++ {
+				walk(v.Index(i))
+			}
+		case reflect.Struct:
+			for i := 0; i < v.NumField(); i++ {
+				walk(v.Field(i))
+			}
+		case reflect.Map:
+			it := v.MapRange()
+			for it.Next() {
+				walk(it.Value())
+			}
+		}
+	}
+	walk(v)
+	return h
 }
